@@ -1085,6 +1085,10 @@ def remove_redundant_transpose_reduce_ir(graph: ir.Graph) -> None:
             # 0. Safety: Reducer output must NOT be used by anything else
             # (Because we are about to change its semantic output from NHWC to NCHW)
             reducer_out_val = _node_output(reducer)
+            if _value_is_observed(graph, nodes, reducer_out_val):
+                # Also a graph output / captured by a nested graph: it must keep
+                # its current layout.
+                continue
             reducer_consumers = _consumer_nodes(nodes, reducer_out_val)
             # We expect exactly one consumer: 'node' (T2)
             if len(reducer_consumers) != 1:
